@@ -356,6 +356,7 @@ func runWorldB(rc *RunCtx, prop string) *RunResult {
 	}
 
 	w.proto = simenv.NewProtoClient(k, w.ledgerNow, w.versions...)
+	w.proto.Namespace = bNS
 
 	var popts []processor.Option
 	if w.useUnpub {
@@ -1510,7 +1511,17 @@ func (w *bWorld) byzantineTxn() {
 	bt := &bTxn{Idx: len(w.txns), ReplayOf: -1}
 	v := w.proto.CurrentVersion().P.GenesisTime
 
-	switch k.T.Draw(4, "byz.txn.kind") {
+	switch k.T.Draw(5, "byz.txn.kind") {
+	case 4: // a valid-looking transaction of a namespace this node does not serve
+		bt.Byz = "unknown-namespace"
+		w.ledger.OnAnchor = nil
+
+		src := ""
+		if len(w.ledger.Txns) > 0 {
+			src = w.ledger.Txns[0].AnchorString
+		}
+
+		w.ledger.AppendNS("did:other", src, v)
 	case 0:
 		bt.Byz = "garbage-anchor"
 		w.ledger.OnAnchor = nil
